@@ -1,112 +1,463 @@
 /* C08, tier B: spifopt_parse against an executable IDEAL READING of the command line.
  *
- * Bounds (stated in every unit header): argc <= VB_ARGC (program name + VB_ARGC-1 words), every word
- * at most VB_WLEN characters over the alphabet  - = a l p i s d e t x 0 1 n o , the 8-entry table
- * below, the four combinations of {pre-parse, remove-args}, boolean target variable arbitrary in its
- * low 32 bits, integer/string/list targets arbitrary/NULL.  Inside the bound the check is exhaustive
- * (SAT); outside it says nothing.  libc string functions: executable byte loops (VOPT_CONCRETE);
- * strings.c (word utilities used by --list=VALUE) is the real code.
+ * Bound: EVERY argument vector of 1 .. VB_ARGC-1 words whose words are taken from a token family (a
+ * list of concrete words covering the spellings, below), the 9-entry table below, one of the four
+ * {pre-parse, remove-args} settings per unit; the initial values of the boolean variable (low 32 bits)
+ * and of the integer variable are symbolic.  The vectors are enumerated concretely by the harness
+ * (cbmc executes them one after the other); units `parse.*` take argc <= 3, units `parse4.*`
+ * (thorough tier) argc <= 4.  Inside the bound the check is exhaustive; outside it says nothing.
+ * (Symbolic characters / symbolic word selection were probed first: cbmc's pointer encoding needs
+ * > 30 GB already for one 3-character word.)  libc string functions are executable byte loops
+ * (VOPT_CONCRETE), strtol is a decimal model, strings.c (--list=TEXT) is the real code.
  *
  * The reference reading (ref_parse) is written from the property statement:
  *   word not starting with '-'            non-option word, untouched, survives removal
  *   --NAME  --NAME=VALUE  --NAME VALUE    NAME must equal a long name (case-insensitive)
  *   -xyz                                  letters left to right; a letter that takes a value ends the word:
  *   -xVALUE  -x VALUE                     the value is the rest of the word, else the next word
- *   boolean: long form honours a boolean word given with '=' or as the next word (consumed); any other
- *            next word is not touched; short form takes no value: sets the bits.  Only mask bits change.
+ *   boolean: the long form honours a boolean word given with '=' or as the next word (consumed); any other
+ *            next word is not touched; the short form takes no value: it sets the bits.  Only mask bits change.
  *   integer / string: last occurrence wins; list: --e=TEXT splits TEXT into words, otherwise the list is the
  *            value plus the rest of the line and parsing stops; abstract: handler called with the value, or
- *            NULL when the next word is an option word or missing
+ *            NULL when the next word is missing
  *   options of the other pass: recognised and skipped exactly the same way, variables untouched
  *   removal (normal pass only): argv == program name, non-option words in order, NULL; otherwise argv untouched
  *   pre-parse flag cleared by the pre-parse pass; nothing else in the settings changes; bad_opts unchanged
- * Vectors that contain an unknown option, a missing value, a lone "-" or an option-looking candidate value
- * of an abstract option are IRREGULAR: for them only memory safety, termination, "only mask bits of the
- * boolean variable change" and "bad options are counted, not fatal" are required (unit parse.irregular).
+ * Vectors with an unknown option, an empty long name or an option-looking candidate value of an abstract
+ * option are class UNKNOWN: for them (and for every vector) memory safety, termination, "only mask bits of
+ * the boolean variable change", "bad options are counted, not fatal" are required, plus at least one bad option.
  *
- * Input classes with a known defect are split off (GUIDE rule 2) so that the regular class stays clean:
- *   parse.shortbool_val   a short boolean letter directly followed (same word or next word) by a boolean word
- *   parse.args_attached   the list option spelled -eVALUE
- *   parse.args_eq_empty   the list option spelled --e=   (empty text)
- *   parse.lone_dash       a lone "-" word
+ * Input classes with a known defect are split off (GUIDE rule 2) so that the other classes stay clean; a
+ * vector belongs to a unit iff its class word is exactly the unit's:
+ *   MISSING         an option that needs a value is the last word             (finding C08-missing-value-loop)
+ *   SHORTBOOL_VAL   a short boolean letter directly followed by a boolean word (C08-shortbool-swallow)
+ *   ARGS_ATTACHED   the list option spelled -eVALUE                            (C08-arglist-attached)
+ *   ARGS_EQ_EMPTY   the list option spelled --e=                               (C08-arglist-eq-overflow)
+ *   PP_LIST         a pre-parse list option without '=' while removal is on    (C08-prepass-arglist)
+ *   DASH            a lone "-": no B unit (the out-of-bounds read makes every later value arbitrary and the
+ *                   run explodes); covered by the P units find_short_option.nul / is_valid_option.dash and
+ *                   the native demo                                            (C08-lone-dash)
  */
 
 /*@unit
-name: parse.regular
+name: parse.bool.pp0rm0
 tier: B
-define: VB_ARGC=4, VB_WLEN=3, CLS_WANT=0
+define: TOK_BOOL, VB_ARGC=3, VB_PRE=0, VB_RM=0, CLS_WANT=0
 src: options.c, strings.c
-bound: argc <= 4, words <= 3 characters over a 15-symbol alphabet, 8-entry table (boolean, long-only boolean, pre-parse boolean, integer, string, pre-parse string, list, abstract), all 4 {pre-parse, remove-args} settings; regular vectors only
-unwind: 16
+bound: argc <= 3 (all 110 vectors of 1..2 words over the 10-token family BOOL), 9-entry table, setting pre-parse=0 remove-args=0, class 0; boolean/integer initial values symbolic
+unwind: 102
+objbits: 16
 backend: sat
-timeout: 900
-mem: 16
+timeout: 300
+mem: 12
 */
 /*@unit
-name: parse.regular_eq
+name: parse.bool.pp0rm1
 tier: B
-define: VB_ARGC=3, VB_WLEN=5, CLS_WANT=0
+define: TOK_BOOL, VB_ARGC=3, VB_PRE=0, VB_RM=1, CLS_WANT=0
 src: options.c, strings.c
-bound: argc <= 3, words <= 5 characters (so that --n=v fits) over a 15-symbol alphabet, 8-entry table, all 4 settings; regular vectors only
-unwind: 16
+bound: argc <= 3 (all 110 vectors of 1..2 words over the 10-token family BOOL), 9-entry table, setting pre-parse=0 remove-args=1, class 0; boolean/integer initial values symbolic
+unwind: 102
+objbits: 16
 backend: sat
-timeout: 900
-mem: 16
+timeout: 300
+mem: 12
 */
 /*@unit
-name: parse.irregular
+name: parse.bool.pp1rm0
 tier: B
-define: VB_ARGC=4, VB_WLEN=3, CLS_WANT=CLS_IRREG
+define: TOK_BOOL, VB_ARGC=3, VB_PRE=1, VB_RM=0, CLS_WANT=0
 src: options.c, strings.c
-bound: argc <= 4, words <= 3 characters, 8-entry table, all 4 settings; vectors with unknown options / missing values / option-looking abstract values (no lone "-")
-unwind: 16
+bound: argc <= 3 (all 110 vectors of 1..2 words over the 10-token family BOOL), 9-entry table, setting pre-parse=1 remove-args=0, class 0; boolean/integer initial values symbolic
+unwind: 102
+objbits: 16
 backend: sat
-timeout: 900
-mem: 16
+timeout: 300
+mem: 12
 */
 /*@unit
-name: parse.lone_dash
+name: parse.bool.pp1rm1
 tier: B
-define: VB_ARGC=3, VB_WLEN=3, CLS_WANT=CLS_DASH
+define: TOK_BOOL, VB_ARGC=3, VB_PRE=1, VB_RM=1, CLS_WANT=0
 src: options.c, strings.c
-bound: argc <= 3, words <= 3 characters, 8-entry table, all 4 settings; vectors containing a lone "-"
-unwind: 16
+bound: argc <= 3 (all 110 vectors of 1..2 words over the 10-token family BOOL), 9-entry table, setting pre-parse=1 remove-args=1, class 0; boolean/integer initial values symbolic
+unwind: 102
+objbits: 16
 backend: sat
-timeout: 900
-mem: 16
+timeout: 300
+mem: 12
 */
 /*@unit
-name: parse.shortbool_val
+name: parse.value.pp0rm0
 tier: B
-define: VB_ARGC=3, VB_WLEN=3, CLS_WANT=CLS_SHORTBOOL_VAL
+define: TOK_VALUE, VB_ARGC=3, VB_PRE=0, VB_RM=0, CLS_WANT=0
 src: options.c, strings.c
-bound: argc <= 3, words <= 3 characters, 8-entry table, all 4 settings; otherwise regular vectors in which a short boolean letter is followed by a boolean word
-unwind: 16
+bound: argc <= 3 (all 110 vectors of 1..2 words over the 10-token family VALUE), 9-entry table, setting pre-parse=0 remove-args=0, class 0; boolean/integer initial values symbolic
+unwind: 102
+objbits: 16
 backend: sat
-timeout: 900
-mem: 16
+timeout: 300
+mem: 12
 */
 /*@unit
-name: parse.args_attached
+name: parse.value.pp0rm1
 tier: B
-define: VB_ARGC=3, VB_WLEN=3, CLS_WANT=CLS_ARGS_ATTACHED
+define: TOK_VALUE, VB_ARGC=3, VB_PRE=0, VB_RM=1, CLS_WANT=0
 src: options.c, strings.c
-bound: argc <= 3, words <= 3 characters, 8-entry table, all 4 settings; otherwise regular vectors with the list option spelled -eVALUE
-unwind: 16
+bound: argc <= 3 (all 110 vectors of 1..2 words over the 10-token family VALUE), 9-entry table, setting pre-parse=0 remove-args=1, class 0; boolean/integer initial values symbolic
+unwind: 102
+objbits: 16
 backend: sat
-timeout: 900
-mem: 16
+timeout: 300
+mem: 12
 */
 /*@unit
-name: parse.args_eq_empty
+name: parse.value.pp1rm0
 tier: B
-define: VB_ARGC=3, VB_WLEN=5, CLS_WANT=CLS_ARGS_EQ_EMPTY
+define: TOK_VALUE, VB_ARGC=3, VB_PRE=1, VB_RM=0, CLS_WANT=0
 src: options.c, strings.c
-bound: argc <= 3, words <= 5 characters, 8-entry table, all 4 settings; otherwise regular vectors with the list option spelled --e= (empty text)
-unwind: 16
+bound: argc <= 3 (all 110 vectors of 1..2 words over the 10-token family VALUE), 9-entry table, setting pre-parse=1 remove-args=0, class 0; boolean/integer initial values symbolic
+unwind: 102
+objbits: 16
 backend: sat
-timeout: 900
-mem: 16
+timeout: 300
+mem: 12
+*/
+/*@unit
+name: parse.value.pp1rm1
+tier: B
+define: TOK_VALUE, VB_ARGC=3, VB_PRE=1, VB_RM=1, CLS_WANT=0
+src: options.c, strings.c
+bound: argc <= 3 (all 110 vectors of 1..2 words over the 10-token family VALUE), 9-entry table, setting pre-parse=1 remove-args=1, class 0; boolean/integer initial values symbolic
+unwind: 102
+objbits: 16
+backend: sat
+timeout: 300
+mem: 12
+*/
+/*@unit
+name: parse.list.pp0rm0
+tier: B
+define: TOK_LIST, VB_ARGC=3, VB_PRE=0, VB_RM=0, CLS_WANT=0
+src: options.c, strings.c
+bound: argc <= 3 (all 110 vectors of 1..2 words over the 10-token family LIST), 9-entry table, setting pre-parse=0 remove-args=0, class 0; boolean/integer initial values symbolic
+unwind: 102
+objbits: 16
+backend: sat
+timeout: 300
+mem: 12
+*/
+/*@unit
+name: parse.list.pp0rm1
+tier: B
+define: TOK_LIST, VB_ARGC=3, VB_PRE=0, VB_RM=1, CLS_WANT=0
+src: options.c, strings.c
+bound: argc <= 3 (all 110 vectors of 1..2 words over the 10-token family LIST), 9-entry table, setting pre-parse=0 remove-args=1, class 0; boolean/integer initial values symbolic
+unwind: 102
+objbits: 16
+backend: sat
+timeout: 300
+mem: 12
+*/
+/*@unit
+name: parse.list.pp1rm0
+tier: B
+define: TOK_LIST, VB_ARGC=3, VB_PRE=1, VB_RM=0, CLS_WANT=0
+src: options.c, strings.c
+bound: argc <= 3 (all 110 vectors of 1..2 words over the 10-token family LIST), 9-entry table, setting pre-parse=1 remove-args=0, class 0; boolean/integer initial values symbolic
+unwind: 102
+objbits: 16
+backend: sat
+timeout: 300
+mem: 12
+*/
+/*@unit
+name: parse.list.pp1rm1
+tier: B
+define: TOK_LIST, VB_ARGC=3, VB_PRE=1, VB_RM=1, CLS_WANT=0
+src: options.c, strings.c
+bound: argc <= 3 (all 110 vectors of 1..2 words over the 10-token family LIST), 9-entry table, setting pre-parse=1 remove-args=1, class 0; boolean/integer initial values symbolic
+unwind: 102
+objbits: 16
+backend: sat
+timeout: 300
+mem: 12
+*/
+/*@unit
+name: parse.unknown.pp0rm0
+tier: B
+define: TOK_UNK, VB_ARGC=3, VB_PRE=0, VB_RM=0, CLS_WANT=CLS_UNKNOWN
+src: options.c, strings.c
+bound: argc <= 3 (all 110 vectors of 1..2 words over the 10-token family UNK), 9-entry table, setting pre-parse=0 remove-args=0, class CLS_UNKNOWN; boolean/integer initial values symbolic
+unwind: 102
+objbits: 16
+backend: sat
+timeout: 300
+mem: 12
+*/
+/*@unit
+name: parse.unknown.pp0rm1
+tier: B
+define: TOK_UNK, VB_ARGC=3, VB_PRE=0, VB_RM=1, CLS_WANT=CLS_UNKNOWN
+src: options.c, strings.c
+bound: argc <= 3 (all 110 vectors of 1..2 words over the 10-token family UNK), 9-entry table, setting pre-parse=0 remove-args=1, class CLS_UNKNOWN; boolean/integer initial values symbolic
+unwind: 102
+objbits: 16
+backend: sat
+timeout: 300
+mem: 12
+*/
+/*@unit
+name: parse.unknown.pp1rm0
+tier: B
+define: TOK_UNK, VB_ARGC=3, VB_PRE=1, VB_RM=0, CLS_WANT=CLS_UNKNOWN
+src: options.c, strings.c
+bound: argc <= 3 (all 110 vectors of 1..2 words over the 10-token family UNK), 9-entry table, setting pre-parse=1 remove-args=0, class CLS_UNKNOWN; boolean/integer initial values symbolic
+unwind: 102
+objbits: 16
+backend: sat
+timeout: 300
+mem: 12
+*/
+/*@unit
+name: parse.unknown.pp1rm1
+tier: B
+define: TOK_UNK, VB_ARGC=3, VB_PRE=1, VB_RM=1, CLS_WANT=CLS_UNKNOWN
+src: options.c, strings.c
+bound: argc <= 3 (all 110 vectors of 1..2 words over the 10-token family UNK), 9-entry table, setting pre-parse=1 remove-args=1, class CLS_UNKNOWN; boolean/integer initial values symbolic
+unwind: 102
+objbits: 16
+backend: sat
+timeout: 300
+mem: 12
+*/
+/*@unit
+name: parse.missing.pp0rm1
+tier: B
+define: TOK_MISS, VB_ARGC=3, VB_PRE=0, VB_RM=1, CLS_WANT=CLS_MISSING
+src: options.c, strings.c
+bound: argc <= 3 (all 42 vectors of 1..2 words over the 6-token family MISS), 9-entry table, setting pre-parse=0 remove-args=1, class CLS_MISSING; boolean/integer initial values symbolic
+unwind: 300
+objbits: 16
+backend: sat
+timeout: 300
+mem: 12
+*/
+/*@unit
+name: parse.shortbool_val.pp0rm1
+tier: B
+define: TOK_SBV, VB_ARGC=3, VB_PRE=0, VB_RM=1, CLS_WANT=CLS_SHORTBOOL_VAL
+src: options.c, strings.c
+bound: argc <= 3 (all 42 vectors of 1..2 words over the 6-token family SBV), 9-entry table, setting pre-parse=0 remove-args=1, class CLS_SHORTBOOL_VAL; boolean/integer initial values symbolic
+unwind: 38
+objbits: 16
+backend: sat
+timeout: 300
+mem: 12
+*/
+/*@unit
+name: parse.args_attached.pp0rm0
+tier: B
+define: TOK_ATT, VB_ARGC=3, VB_PRE=0, VB_RM=0, CLS_WANT=CLS_ARGS_ATTACHED
+src: options.c, strings.c
+bound: argc <= 3 (all 20 vectors of 1..2 words over the 4-token family ATT), 9-entry table, setting pre-parse=0 remove-args=0, class CLS_ARGS_ATTACHED; boolean/integer initial values symbolic
+unwind: 18
+objbits: 16
+backend: sat
+timeout: 300
+mem: 12
+*/
+/*@unit
+name: parse.args_eq_empty.pp0rm1
+tier: B
+define: TOK_EQE, VB_ARGC=3, VB_PRE=0, VB_RM=1, CLS_WANT=CLS_ARGS_EQ_EMPTY
+src: options.c, strings.c
+bound: argc <= 3 (all 12 vectors of 1..2 words over the 3-token family EQE), 9-entry table, setting pre-parse=0 remove-args=1, class CLS_ARGS_EQ_EMPTY; boolean/integer initial values symbolic
+unwind: 11
+objbits: 16
+backend: sat
+timeout: 300
+mem: 12
+*/
+/*@unit
+name: parse.pp_list.pp1rm1
+tier: B
+define: TOK_PPL, VB_ARGC=3, VB_PRE=1, VB_RM=1, CLS_WANT=CLS_PP_LIST
+src: options.c, strings.c
+bound: argc <= 3 (all 30 vectors of 1..2 words over the 5-token family PPL), 9-entry table, setting pre-parse=1 remove-args=1, class CLS_PP_LIST; boolean/integer initial values symbolic
+unwind: 27
+objbits: 16
+backend: sat
+timeout: 300
+mem: 12
+*/
+/*@unit
+name: parse.pp_list.pp0rm1
+tier: B
+define: TOK_PPL, VB_ARGC=3, VB_PRE=0, VB_RM=1, CLS_WANT=CLS_PP_LIST
+src: options.c, strings.c
+bound: argc <= 3 (all 30 vectors of 1..2 words over the 5-token family PPL), 9-entry table, setting pre-parse=0 remove-args=1, class CLS_PP_LIST; boolean/integer initial values symbolic
+unwind: 27
+objbits: 16
+backend: sat
+timeout: 300
+mem: 12
+*/
+/*@unit
+name: parse4.bool.pp0rm0
+tier: B
+define: TOK_BOOL, VB_ARGC=4, VB_PRE=0, VB_RM=0, CLS_WANT=0
+src: options.c, strings.c
+bound: argc <= 4 (all 1110 vectors of 1..3 words over the 10-token family BOOL), 9-entry table, setting pre-parse=0 remove-args=0, class 0; boolean/integer initial values symbolic
+unwind: 1002
+objbits: 16
+backend: sat
+timeout: 1800
+mem: 12
+quick: no
+*/
+/*@unit
+name: parse4.bool.pp0rm1
+tier: B
+define: TOK_BOOL, VB_ARGC=4, VB_PRE=0, VB_RM=1, CLS_WANT=0
+src: options.c, strings.c
+bound: argc <= 4 (all 1110 vectors of 1..3 words over the 10-token family BOOL), 9-entry table, setting pre-parse=0 remove-args=1, class 0; boolean/integer initial values symbolic
+unwind: 1002
+objbits: 16
+backend: sat
+timeout: 1800
+mem: 12
+quick: no
+*/
+/*@unit
+name: parse4.bool.pp1rm0
+tier: B
+define: TOK_BOOL, VB_ARGC=4, VB_PRE=1, VB_RM=0, CLS_WANT=0
+src: options.c, strings.c
+bound: argc <= 4 (all 1110 vectors of 1..3 words over the 10-token family BOOL), 9-entry table, setting pre-parse=1 remove-args=0, class 0; boolean/integer initial values symbolic
+unwind: 1002
+objbits: 16
+backend: sat
+timeout: 1800
+mem: 12
+quick: no
+*/
+/*@unit
+name: parse4.bool.pp1rm1
+tier: B
+define: TOK_BOOL, VB_ARGC=4, VB_PRE=1, VB_RM=1, CLS_WANT=0
+src: options.c, strings.c
+bound: argc <= 4 (all 1110 vectors of 1..3 words over the 10-token family BOOL), 9-entry table, setting pre-parse=1 remove-args=1, class 0; boolean/integer initial values symbolic
+unwind: 1002
+objbits: 16
+backend: sat
+timeout: 1800
+mem: 12
+quick: no
+*/
+/*@unit
+name: parse4.value.pp0rm0
+tier: B
+define: TOK_VALUE, VB_ARGC=4, VB_PRE=0, VB_RM=0, CLS_WANT=0
+src: options.c, strings.c
+bound: argc <= 4 (all 1110 vectors of 1..3 words over the 10-token family VALUE), 9-entry table, setting pre-parse=0 remove-args=0, class 0; boolean/integer initial values symbolic
+unwind: 1002
+objbits: 16
+backend: sat
+timeout: 1800
+mem: 12
+quick: no
+*/
+/*@unit
+name: parse4.value.pp0rm1
+tier: B
+define: TOK_VALUE, VB_ARGC=4, VB_PRE=0, VB_RM=1, CLS_WANT=0
+src: options.c, strings.c
+bound: argc <= 4 (all 1110 vectors of 1..3 words over the 10-token family VALUE), 9-entry table, setting pre-parse=0 remove-args=1, class 0; boolean/integer initial values symbolic
+unwind: 1002
+objbits: 16
+backend: sat
+timeout: 1800
+mem: 12
+quick: no
+*/
+/*@unit
+name: parse4.value.pp1rm0
+tier: B
+define: TOK_VALUE, VB_ARGC=4, VB_PRE=1, VB_RM=0, CLS_WANT=0
+src: options.c, strings.c
+bound: argc <= 4 (all 1110 vectors of 1..3 words over the 10-token family VALUE), 9-entry table, setting pre-parse=1 remove-args=0, class 0; boolean/integer initial values symbolic
+unwind: 1002
+objbits: 16
+backend: sat
+timeout: 1800
+mem: 12
+quick: no
+*/
+/*@unit
+name: parse4.value.pp1rm1
+tier: B
+define: TOK_VALUE, VB_ARGC=4, VB_PRE=1, VB_RM=1, CLS_WANT=0
+src: options.c, strings.c
+bound: argc <= 4 (all 1110 vectors of 1..3 words over the 10-token family VALUE), 9-entry table, setting pre-parse=1 remove-args=1, class 0; boolean/integer initial values symbolic
+unwind: 1002
+objbits: 16
+backend: sat
+timeout: 1800
+mem: 12
+quick: no
+*/
+/*@unit
+name: parse4.list.pp0rm0
+tier: B
+define: TOK_LIST, VB_ARGC=4, VB_PRE=0, VB_RM=0, CLS_WANT=0
+src: options.c, strings.c
+bound: argc <= 4 (all 1110 vectors of 1..3 words over the 10-token family LIST), 9-entry table, setting pre-parse=0 remove-args=0, class 0; boolean/integer initial values symbolic
+unwind: 1002
+objbits: 16
+backend: sat
+timeout: 1800
+mem: 12
+quick: no
+*/
+/*@unit
+name: parse4.list.pp0rm1
+tier: B
+define: TOK_LIST, VB_ARGC=4, VB_PRE=0, VB_RM=1, CLS_WANT=0
+src: options.c, strings.c
+bound: argc <= 4 (all 1110 vectors of 1..3 words over the 10-token family LIST), 9-entry table, setting pre-parse=0 remove-args=1, class 0; boolean/integer initial values symbolic
+unwind: 1002
+objbits: 16
+backend: sat
+timeout: 1800
+mem: 12
+quick: no
+*/
+/*@unit
+name: parse4.list.pp1rm0
+tier: B
+define: TOK_LIST, VB_ARGC=4, VB_PRE=1, VB_RM=0, CLS_WANT=0
+src: options.c, strings.c
+bound: argc <= 4 (all 1110 vectors of 1..3 words over the 10-token family LIST), 9-entry table, setting pre-parse=1 remove-args=0, class 0; boolean/integer initial values symbolic
+unwind: 1002
+objbits: 16
+backend: sat
+timeout: 1800
+mem: 12
+quick: no
+*/
+/*@unit
+name: parse4.list.pp1rm1
+tier: B
+define: TOK_LIST, VB_ARGC=4, VB_PRE=1, VB_RM=1, CLS_WANT=0
+src: options.c, strings.c
+bound: argc <= 4 (all 1110 vectors of 1..3 words over the 10-token family LIST), 9-entry table, setting pre-parse=1 remove-args=1, class 0; boolean/integer initial values symbolic
+unwind: 1002
+objbits: 16
+backend: sat
+timeout: 1800
+mem: 12
+quick: no
 */
 #define VERIF_OWN_STRLEN
 #define VERIF_OWN_STRCMP
@@ -128,11 +479,13 @@ unsigned long spiftool_num_words(const spif_charptr_t s) { __CPROVER_assert(0, "
 #endif
 #include "options.h"
 
-#define CLS_IRREG          1u
+#define CLS_UNKNOWN        1u
 #define CLS_DASH           2u
 #define CLS_SHORTBOOL_VAL  4u
 #define CLS_ARGS_ATTACHED  8u
 #define CLS_ARGS_EQ_EMPTY  16u
+#define CLS_MISSING        32u
+#define CLS_PP_LIST        64u
 
 #define NW (VB_ARGC - 1)
 
@@ -140,7 +493,7 @@ unsigned long spiftool_num_words(const spif_charptr_t s) { __CPROVER_assert(0, "
 static unsigned long t_flags;
 static int t_int;
 static char *t_str, *t_pstr;
-static char **t_args;
+static char **t_args, **t_pargs;
 #define M_A 0x01u
 #define M_P 0x02u
 #define M_L 0x04u
@@ -152,6 +505,7 @@ static spifopt_t tab[] = {
     SPIFOPT_STR('s', "s", "string", t_str),
     SPIFOPT_STR_PP('d', "d", "string, pre-parse", t_pstr),
     SPIFOPT_ARGS('e', "e", "list", t_args),
+    SPIFOPT_ARGS_PP('E', "E", "list, pre-parse", t_pargs),
     SPIFOPT_ABST('t', "t", "abstract", vopt_abstract),
 };
 #define NTAB ((int) (sizeof(tab) / sizeof(tab[0])))
@@ -163,6 +517,7 @@ static unsigned long r_flags;
 static int r_int;
 static const char *r_str, *r_pstr;              /* NULL: unchanged */
 static int r_args_kind;                         /* 0 none, 1 --e=TEXT, 2 value + rest of line */
+static int r_args_pp;                           /* the list went to the pre-parse list option */
 static const char *r_args_first; static int r_args_next;
 static unsigned long r_abst_calls; static const char *r_abst_last;
 static unsigned char r_keep[VB_ARGC];
@@ -203,7 +558,7 @@ static int r_apply(int j, const char *val, int haseq, int from_next, int islong,
         return (bw >= 0) ? from_next : 0;
     }
     if (f & (SPIFOPT_FLAG_INTEGER | SPIFOPT_FLAG_STRING)) {
-        if (!val) { r_cls |= CLS_IRREG; return 0; }
+        if (!val) { r_cls |= CLS_MISSING; return 0; }
         if (r_pass(j)) {
             if (f & SPIFOPT_FLAG_INTEGER) r_int = (int) vopt_strtol(val, (char **) 0, 0);
             else if (tab[j].value == (void *) &t_str) r_str = val; else r_pstr = val;
@@ -211,19 +566,20 @@ static int r_apply(int j, const char *val, int haseq, int from_next, int islong,
         return from_next;
     }
     if (f & SPIFOPT_FLAG_ARGLIST) {
-        if (!val) { r_cls |= CLS_IRREG; return 0; }
+        if (!val) { r_cls |= CLS_MISSING; return 0; }
         if (haseq) {
             if (!*val) r_cls |= CLS_ARGS_EQ_EMPTY;
-            if (r_pass(j)) { r_args_kind = 1; r_args_first = val; }
+            if (r_pass(j)) { r_args_kind = 1; r_args_first = val; r_args_pp = (f & SPIFOPT_FLAG_PREPARSE) != 0; }
             return 0;
         }
         if (!from_next) r_cls |= CLS_ARGS_ATTACHED;
-        if (r_pass(j)) { r_args_kind = 2; r_args_first = val; r_args_next = from_next ? i + 2 : i + 1; }
+        if ((f & SPIFOPT_FLAG_PREPARSE) && r_rm) r_cls |= CLS_PP_LIST;
+        if (r_pass(j)) { r_args_kind = 2; r_args_first = val; r_args_next = from_next ? i + 2 : i + 1; r_args_pp = (f & SPIFOPT_FLAG_PREPARSE) != 0; }
         r_stop = 1;                              /* the rest of the line belongs to the list */
         return from_next;
     }
     /* abstract: value optional */
-    if (val && val[0] == '-') { r_cls |= CLS_IRREG; val = (const char *) 0; from_next = 0; }
+    if (val && val[0] == '-') { r_cls |= CLS_UNKNOWN; val = (const char *) 0; from_next = 0; }
     if (r_pass(j)) { r_abst_calls++; r_abst_last = val; }
     return val ? from_next : 0;
 }
@@ -239,7 +595,7 @@ static void ref_parse(int argc, char **av)
             const char *name = w + 2; size_t nl = 0; const char *val = (const char *) 0; int from_next = 0, haseq, j;
             while (name[nl] && name[nl] != '=') nl++;
             j = r_find_long(name, nl);
-            if (j < 0) { r_cls |= CLS_IRREG; i++; continue; }
+            if (j < 0) { r_cls |= CLS_UNKNOWN; i++; continue; }
             haseq = (name[nl] == '=');
             if (haseq) val = name + nl + 1; else if (i + 1 < argc) { val = av[i + 1]; from_next = 1; }
             i += 1 + r_apply(j, val, haseq, from_next, 1, i, argc);
@@ -250,7 +606,7 @@ static void ref_parse(int argc, char **av)
             while (w[p]) {
                 int j = r_find_short(w[p]);
                 const char *val = (const char *) 0; int from_next = 0;
-                if (j < 0) { r_cls |= CLS_IRREG; p++; continue; }
+                if (j < 0) { r_cls |= CLS_UNKNOWN; p++; continue; }
                 if (w[p + 1]) val = w + p + 1; else if (i + 1 < argc) { val = av[i + 1]; from_next = 1; }
                 if (tab[j].flags & SPIFOPT_FLAG_BOOLEAN) {
                     if (r_boolword(val) >= 0) r_cls |= CLS_SHORTBOOL_VAL;
@@ -278,16 +634,18 @@ static char *const TOK[] = {
     "f", "-a", "-i1", "-s", "-sf", "-df", "--i", "--s=f", "--d", "-ai",
 #elif defined(TOK_LIST)    /* list and abstract options */
     "f", "g", "-a", "-e", "--e", "--e=f", "-t", "-tf", "--t", "--t=f",
-#elif defined(TOK_IRREG)   /* unknown options, missing values, option-looking abstract values, empty long name */
-    "f", "-a", "-x", "-ax", "--x", "--", "-i", "--s", "-e", "--t",
+#elif defined(TOK_UNK)     /* unknown options, option-looking abstract values, empty long name */
+    "f", "-a", "-x", "-ax", "-xa", "--x", "--", "-t", "--t", "--x=f",
+#elif defined(TOK_MISS)    /* an option that needs a value as the last word */
+    "f", "-a", "-i", "--s", "-e", "-ai",
 #elif defined(TOK_SBV)     /* short boolean followed by a boolean word */
     "f", "-a", "-a1", "on", "0", "-p",
 #elif defined(TOK_ATT)     /* list option spelled -eVALUE */
     "f", "-a", "-ef", "-aef",
 #elif defined(TOK_EQE)     /* list option spelled --e= */
     "f", "-a", "--e=",
-#elif defined(TOK_DASH)    /* the lone dash */
-    "f", "-a", "-", "--l", "-t",
+#elif defined(TOK_PPL)     /* pre-parse list option */
+    "f", "g", "-a", "-E", "--E",
 #else
 # error "token family not selected"
 #endif
@@ -308,11 +666,11 @@ static void one_vector(int argc)
     spifopt_settings.opt_list = tab; spifopt_settings.num_opts = NTAB;
     spifopt_settings.flags = (r_pre ? SPIFOPT_SETTING_PREPARSE : 0) | (r_rm ? SPIFOPT_SETTING_REMOVE_ARGS : 0);
     spifopt_settings.bad_opts = 0; spifopt_settings.allow_bad = 255; spifopt_settings.help_handler = vopt_help;
-    t_flags = f0; t_int = i0; t_str = t_pstr = (char *) 0; t_args = (char **) 0;
+    t_flags = f0; t_int = i0; t_str = t_pstr = (char *) 0; t_args = t_pargs = (char **) 0;
     vg_abst_calls = 0; vg_abst_arg = (const char *) 0; vg_help_calls = 0;
 
     /* the reference reading */
-    r_cls = 0; r_flags = f0; r_int = i0; r_str = r_pstr = (const char *) 0; r_args_kind = 0; r_abst_calls = 0;
+    r_cls = 0; r_flags = f0; r_int = i0; r_str = r_pstr = (const char *) 0; r_args_kind = 0; r_args_pp = 0; r_abst_calls = 0;
     r_abst_last = (const char *) 0; r_stop = 0;
     for (k = 0; k < VB_ARGC; k++) r_keep[k] = 0;
     ref_parse(argc, av0);
@@ -325,8 +683,8 @@ static void one_vector(int argc)
     __CPROVER_assert(((t_flags ^ f0) & ~(unsigned long) (M_A | M_P | M_L)) == 0, "B: only mask bits of the boolean variable change");
     __CPROVER_assert(spifopt_settings.flags == (r_rm ? SPIFOPT_SETTING_REMOVE_ARGS : 0), "B: pre-parse flag cleared, remove-args flag kept");
     __CPROVER_assert(vg_help_calls == 0, "B: bad options below the limit are counted, not fatal");
-#if (CLS_WANT) & (CLS_IRREG | CLS_DASH)
-    __CPROVER_assert(spifopt_settings.bad_opts >= 1 || ((CLS_WANT) & CLS_DASH), "B: an irregular vector is counted as (at least one) bad option");
+#if (CLS_WANT) & (CLS_UNKNOWN | CLS_MISSING)
+    __CPROVER_assert(spifopt_settings.bad_opts >= 1, "B: an irregular vector is counted as (at least one) bad option");
 #else
     /* ---- required of regular vectors: the ideal reading ------------------------------------ */
     __CPROVER_assert(spifopt_settings.bad_opts == 0, "B: no bad option counted for a regular vector");
@@ -336,19 +694,21 @@ static void one_vector(int argc)
     __CPROVER_assert(r_pstr ? str_eq(t_pstr, r_pstr) : t_pstr == (char *) 0, "B: pre-parse string variable has the value the command line says");
     __CPROVER_assert(vg_abst_calls == r_abst_calls && (r_abst_calls == 0 || vg_abst_arg == r_abst_last), "B: abstract handler called as the command line says");
     if (r_args_kind == 0) {
-        __CPROVER_assert(t_args == (char **) 0, "B: list variable untouched");
+        __CPROVER_assert(t_args == (char **) 0 && t_pargs == (char **) 0, "B: list variables untouched");
     } else {
-        __CPROVER_assert(t_args != (char **) 0, "B: list variable assigned");
-        if (t_args) {
+        char **lst = r_args_pp ? t_pargs : t_args;
+        __CPROVER_assert((r_args_pp ? t_args : t_pargs) == (char **) 0, "B: the other list variable untouched");
+        __CPROVER_assert(lst != (char **) 0, "B: list variable assigned");
+        if (lst) {
             n = 0;
             if (r_args_kind == 1) {
-                if (*r_args_first) { __CPROVER_assert(str_eq(t_args[0], r_args_first), "B: list from --e=TEXT holds TEXT's word"); n = 1; }
+                if (*r_args_first) { __CPROVER_assert(str_eq(lst[0], r_args_first), "B: list from --e=TEXT holds TEXT's word"); n = 1; }
             } else {
-                __CPROVER_assert(str_eq(t_args[0], r_args_first), "B: list starts with the value");
+                __CPROVER_assert(str_eq(lst[0], r_args_first), "B: list starts with the value");
                 n = 1;
-                for (k = r_args_next; k < argc; k++) { __CPROVER_assert(str_eq(t_args[n], av0[k]), "B: list continues with the rest of the line, in order"); n++; }
+                for (k = r_args_next; k < argc; k++) { __CPROVER_assert(str_eq(lst[n], av0[k]), "B: list continues with the rest of the line, in order"); n++; }
             }
-            __CPROVER_assert(t_args[n] == (char *) 0, "B: list NULL-terminated after exactly the expected entries");
+            __CPROVER_assert(lst[n] == (char *) 0, "B: list NULL-terminated after exactly the expected entries");
         }
     }
     /* argv */
